@@ -92,6 +92,42 @@ def run(ctx):
         cases.append(('cnfgen', ['--seed', seed, 'php', 3, 2, '-T', 'xorcomp', 'glrd', 6, 4, 2], b'', seed))
         cases.append(('cnfgen', ['--seed', seed, 'php', 3, 2, '-T', 'majcomp', 'glrm', 6, 5, 9], b'', seed))
         cases.append(('cnfgen', ['--seed', seed, 'op', 3, '-T', 'shuffle', '-T', 'xorcomp', 9, 2], b'', seed))
+    # graph FILES named relative to the working directory (the same files exist in both directories), with vertex NAMES in
+    # the dot / gml files: reading them must not bring hash order or the directory into the output (header included)
+    names_l = ['p_ada', 'p_bob', 'p_cleo', 'p_dan', 'p_eve', 'p_fay', 'p_gus']
+    names_r = ['h_red', 'h_blue', 'h_green', 'h_cyan', 'h_pink']
+    bedges = sorted(set((pn, names_r[(2 * i + 3 * j) % len(names_r)]) for i, pn in enumerate(names_l) for j in range(i % 3 + 1)))
+    vs = ['n_%s' % w for w in ('ash', 'birch', 'cedar', 'elm', 'fir', 'oak', 'pine', 'yew')]
+    sedges = sorted(set(tuple(sorted((vs[i], vs[(i * 3 + j) % len(vs)]))) for i in range(len(vs)) for j in (1, 2) if vs[i] != vs[(i * 3 + j) % len(vs)]))
+    files = {
+        'b.dot': 'strict graph {\n' + ''.join('%s [bipartite=0];\n' % x for x in names_l) + ''.join('%s [bipartite=1];\n' % x for x in names_r)
+                 + ''.join('%s -- %s;\n' % e for e in bedges) + '}\n',
+        'g.dot': 'strict graph {\n' + ''.join('%s;\n' % x for x in vs) + ''.join('%s -- %s;\n' % e for e in sedges) + '}\n',
+        'g.gml': 'graph [\n' + ''.join('  node [\n    id %d\n    label "%s"\n  ]\n' % (i, x) for i, x in enumerate(vs))
+                 + ''.join('  edge [\n    source %d\n    target %d\n  ]\n' % (vs.index(a), vs.index(b)) for a, b in sedges) + ']\n',
+        'b.kthlist': '7\n1 : 4 5 0\n2 : 5 6 0\n3 : 4 7 0\n',
+        'b.matrix': '3 4\n1 1 0 0\n0 1 1 0\n1 0 0 1\n',
+        'd.kthlist': '5\n1 : 0\n2 : 0\n3 : 1 2 0\n4 : 2 3 0\n5 : 3 4 0\n',
+        'g.dimacs': 'p edge 5 5\ne 1 2\ne 2 3\ne 3 4\ne 4 5\ne 1 5\n',
+        os.path.join('sub', 'g.kthlist'): '4\n1 : 2 3 0\n2 : 3 0\n3 : 4 0\n4 : 0\n',
+    }
+    for d in dirs:
+        os.makedirs(os.path.join(d, 'sub'), exist_ok=True)
+        for fn, text in files.items():
+            with open(os.path.join(d, fn), 'w') as f:
+                f.write(text)
+    file_lines = [
+        ('cnfgen', ['php', 'b.dot']), ('cnfgen', ['subsetcard', 'b.dot', 'addedges', 3]), ('pbgen', ['subsetcard', 'b.dot']),
+        ('cnfgen', ['and', 2, 1, '-T', 'xorcomp', 'b.kthlist']), ('cnfgen', ['or', 3, 4, '-T', 'majcomp', 'b.dot']), ('cnfgen', ['php', 'b.matrix', 'addedges', 2]),
+        ('cnfgen', ['kcolor', 3, 'g.gml', 'plantclique', 3]), ('cnfgen', ['kcolor', 2, 'g.dot', 'addedges', 2]), ('cnfgen', ['tseitin', 'randomodd', 'g.dot']),
+        ('cnfgen', ['matching', 'g.gml']), ('pbgen', ['tseitin', 'random', 'g.gml']), ('cnfgen', ['domset', 2, 'g.dimacs', 'addedges', 1]),
+        ('cnfgen', ['peb', 'd.kthlist', '-T', 'shuffle']), ('cnfgen', ['stone', 3, 'd.kthlist']), ('cnfgen', ['kclique', 3, os.path.join('sub', 'g.kthlist'), 'plantclique', 3]),
+        ('cnfgen', ['-of', 'latex', 'kcolor', 2, 'g.dot']), ('pbgen', ['-of', 'latex', 'php', 'b.dot']), ('cnfgen', ['-v', '-of', 'opb', 'ec', 'g.gml']),
+        ('cnfgen', ['iso', 'g.dot', '-e', 'g.gml']), ('cnfgen', ['subgraph', '-G', 'g.gml', '-H', os.path.join('sub', 'g.kthlist')]),
+    ]
+    for seed in [0, 5, rng.randint(-10 ** 6, 10 ** 6)][:2 if quick else 3]:
+        for tool, ln in file_lines:
+            cases.append((tool, ['--seed', seed] + ln, b'', seed))
     for c in cases:
         seen.add((c[0], tuple(map(str, c[1])), c[2]))
         ctx.tally('tool', c[0])
